@@ -635,7 +635,7 @@ func replay(c *common.Ctx, path string) int {
 
 func init() {
 	common.Register(&common.Prop{
-		ID: "C01", Level: "exploration", Run: run, Coverage: coverage, Replay: replay,
+		ID: "C01", Level: "exploration", Run: run, Coverage: coverage, Replay: replay, Race: raceBody,
 		Assumptions: []string{
 			"source texts: token strings of length <=3 (quick) / <=4 (thorough) over an 88-symbol alphabet; 246 node-kind templates x environment atoms at depth 1; depth 2 over a 4-atom (quick) / 8-atom (thorough) universe; every token-boundary prefix and single-token deletion of the depth-1 programs (quick: over reduced atom sets for 3- and 4-hole templates); byte strings of length <=3 / <=4 over 40 bytes",
 			"environment: fresh per execution; one value of every kind a script can build (made by a script prologue) plus Go functions (fixed arity 1 and 3, variadic, one that panics, one returning (value, error)) and one undefined name",
